@@ -108,9 +108,10 @@ PROPS = {
         technique="Coq proof (prefix invariant a<=b<=d; close leaves a prefix; cycles) + lock-step correspondence with reopen labels",
     ),
     "C06": dict(
-        runs=[("fault", "", "faultrun", 320, 4000, 0)],
-        corr={"model:unsurfaced-failure", "model:retry", "driver-error", "harness-error"}, corr_held=False,
-        spec={"spec:fault-lost-or-corrupt", "spec:never-caught-up", "spec:reopen-after-faults"}, spec_held=False,
+        runs=[("fault", "", "faultrun", 320, 4000, 0), ("ops", "", "opsrun", 200, 4000, 0)],
+        corr={"model:unsurfaced-failure", "model:retry", "model:ops-outcome", "driver-error", "harness-error"}, corr_held=False,
+        spec={"spec:fault-lost-or-corrupt", "spec:never-caught-up", "spec:reopen-after-faults", "spec:ops-lost-after-reopen"},
+        spec_held=False,
         rule="workloads of 3-5 rounds (append persists, leveled partial and forced full compactions, 1 or 512 buffer "
              "pages, large values so that section writers flush repeatedly) run once clean with every file operation "
              "recorded, then once per injected failure chosen among the recorded operations: kind open / write / short "
@@ -223,8 +224,8 @@ PROPS = {
         technique="Coq proof (footer-chain model: walk after append/compaction/revert, immutability of older footers) + lock-step over previous/revert programs",
     ),
     "C15": dict(
-        runs=[("refs", "", "refsrun", 64, 1500, 0)],
-        corr={"driver-error", "harness-error"}, corr_held=False,
+        runs=[("refs", "", "refsrun", 64, 1500, 0), ("owners", "", "ownersrun", 26, 260, 0)],
+        corr={"model:owner-events", "model:owner-files", "driver-error", "harness-error"}, corr_held=False,
         spec={"spec:ref-count-jump", "spec:ref-use-after-release", "spec:ref-leak", "spec:handle-changed",
               "spec:leaked-fd", "spec:leaked-mapping", "spec:stale-files", "spec:stale-files-after-file-switch"}, spec_held=False,
         rule="8-19 steps per case over a store-backed collection (child collections in half of the cases, leveled and "
